@@ -126,6 +126,82 @@ def bundle_key_sig(text):
     return None
 
 
+def xml_expressible(d):
+    """can this document be written as PROV-XML at all (attribute-name local parts must be NCNames)?"""
+    import re
+    nc = re.compile(r"^[A-Za-z_][A-Za-z0-9_.\-]*$")
+    for c in [d] + list(d.bundles):
+        for r in c.records:
+            for (a, v) in r.attributes:
+                if not nc.match(a.localpart):
+                    return False
+                if a.uri == "http://www.w3.org/ns/prov#label" and not (isinstance(v, str) or getattr(v, "langtag", None)):
+                    return False
+    return True
+
+
+def judge_xml(ctx, text, spec, origin, fails):
+    """text: PROV-XML; spec: abstract document by the Lean PROV-XML specification reader"""
+    case = {"text": text, "origin": origin, "format": "xml"}
+    try:
+        d = ProvDocument.deserialize(content=text, format="xml")
+        err = None
+    except Exception as e:  # noqa
+        d = None
+        err = e
+    if err is not None:
+        ctx.count("xml-load-error:" + type(err).__name__)
+        if spec is not None and not isinstance(spec, tuple) and not isinstance(err, ProvError):
+            fails.append(Failure("oracle", None, "well-formed PROV-XML makes the reader crash with %s: %s" % (type(err).__name__, str(err)[:100]), case))
+        return
+    ctx.count("xml-loaded")
+    got = proto.strict_doc(d)
+    if xml_expressible(d):
+        for ft in (False, True):
+            try:
+                d2 = ProvDocument.deserialize(content=d.serialize(format="xml", force_types=ft), format="xml")
+                if proto.strict_doc(d2) != got:
+                    fails.append(Failure("oracle", sig_for(d), "loaded document changes when written as XML (force_types=%s) and loaded again" % ft, case))
+                    break
+            except Exception as e:  # noqa
+                fails.append(Failure("oracle", sig_for(d), "loaded document cannot be written as XML and loaded again: %r" % (e,), case))
+                break
+    if spec is not None and not isinstance(spec, tuple):
+        spec, got = relax_mixed(spec, got)
+        if spec != got:
+            why = ""
+            for k in sorted(set(spec) | set(got)):
+                a, b = spec.get(k) or [], got.get(k) or []
+                if a != b:
+                    why = "bundle %r: the text states %s, the library loaded %s" % (k, [x for x in a if x not in b][:1], [x for x in b if x not in a][:1])
+                    break
+            fails.append(Failure("oracle", None, "the loaded document differs from what the XML text states: " + why[:900], case))
+    elif isinstance(spec, tuple):
+        ctx.count("xml-spec-reader-fatal")
+    else:
+        ctx.count("xml-spec-reader-rejects")
+
+
+def cross_format(ctx, text, fails):
+    """JSON text -> d -> XML -> d' must have the same content as d when d is XML-expressible"""
+    try:
+        d = ProvDocument.deserialize(content=text, format="json")
+    except Exception:
+        return
+    if not xml_expressible(d):
+        ctx.count("cross:not-xml-expressible")
+        return
+    want = proto.strict_doc(d)
+    try:
+        d2 = ProvDocument.deserialize(content=d.serialize(format="xml"), format="xml")
+    except Exception as e:  # noqa
+        fails.append(Failure("oracle", sig_for(d), "JSON -> document -> XML -> load raised %r" % (e,), {"text": text, "origin": "cross", "format": "json", "cross": True}))
+        return
+    ctx.count("cross:checked")
+    if proto.strict_doc(d2) != want:
+        fails.append(Failure("oracle", sig_for(d), "JSON -> document -> XML -> document changes the content", {"text": text, "origin": "cross", "format": "json", "cross": True}))
+
+
 def sig_for(d):
     from .c01 import unresolvable
     return "C11:name-not-resolvable-in-scope" if unresolvable(d) else None
@@ -176,9 +252,44 @@ def run(ctx):
         ctx.evaluations += 1
         before = len(fails)
         judge(ctx, t, spec, origin, fails)
+        if g.chance(0.5):
+            cross_format(ctx, t, fails)
         if spec is not None and not isinstance(spec, tuple) and sum(len(v) for v in spec.values()) >= 2:
             ctx.nontrivial(t)
         ctx.sample({"origin": origin, "text": t[:300]})
+    # ---- PROV-XML half
+    from .. import foreign_xml
+    xg = foreign_xml.ForeignXmlGen(g)
+    xtexts = [(xg.document(), "generated-xml") for _ in range(ctx.n(200, 2000))]
+    xfiles = foreign_xml.corpus_files()
+    for i in range(ctx.n(60, len(xfiles) * len(foreign_xml.MUTATIONS))):
+        if ctx.tier == "thorough":
+            f = xfiles[i % len(xfiles)]
+            how = foreign_xml.MUTATIONS[(i // len(xfiles)) % len(foreign_xml.MUTATIONS)]
+        else:
+            f = g.choice(xfiles)
+            how = g.choice(foreign_xml.MUTATIONS)
+        mt, applied = foreign_xml.mutate(g, open(f, "rb").read().decode("utf-8"), how)
+        ctx.count("xml-mutation:%s:%s" % (how, "applied" if applied else "n/a"))
+        if applied:
+            xtexts.append((mt, "%s+%s" % (f.rsplit("/", 1)[-1], how)))
+    xspecs = []
+    for i in range(0, len(xtexts), 100):
+        xspecs.extend(specread.spec_read_xml_texts([t for (t, _o) in xtexts[i:i + 100]]))
+    xworlds = []
+    for (t, origin), spec in zip(xtexts, xspecs):
+        ctx.evaluations += 1
+        judge_xml(ctx, t, spec, origin, fails)
+        if spec is not None and not isinstance(spec, tuple) and sum(len(v) for v in spec.values()) >= 2:
+            ctx.nontrivial(t)
+        if g.chance(0.5):
+            w = World()
+            h, err = w.dec_xml(t)
+            if h is not None:
+                w.obs(h)
+            xworlds.append(w)
+    for i in range(0, len(xworlds), 100):
+        fails.extend(corr_failures(ctx, xworlds[i:i + 100]))
     return fails
 
 
@@ -188,6 +299,12 @@ def oracle_only(ctx):
 
 def replay(ctx, case):
     fails = []
-    spec = specread.spec_read_json_texts([case["text"]])[0]
-    judge(ctx, case["text"], spec, case.get("origin", "replay"), fails)
+    if case.get("format") == "xml":
+        spec = specread.spec_read_xml_texts([case["text"]])[0]
+        judge_xml(ctx, case["text"], spec, case.get("origin", "replay"), fails)
+    elif case.get("cross"):
+        cross_format(ctx, case["text"], fails)
+    else:
+        spec = specread.spec_read_json_texts([case["text"]])[0]
+        judge(ctx, case["text"], spec, case.get("origin", "replay"), fails)
     return fails
